@@ -23,7 +23,8 @@ RULE = ('seeded random histories of integrate(chunk)/predict/get_pva/get_time/se
         '(ending exactly at capacity, one short, one over, > 2x capacity), both altitude modes; a share of the histories '
         'is re-run in a NUMBA_BOUNDSCHECK=1 subprocess; non-trivial = history with more than one integrate call or any '
         'predict/set_pva (the tests use exactly one integrate call); distinct = generator parameters'
-        ' Round 4: class vertical - pitch exactly +-90 on every row (stationary, Earth-rate-consistent readings) with set_pva relabelling the same physical attitude under another heading; set_pva with the labels of the state in another order.')
+        ' Round 4: class vertical - pitch exactly +-90 on every row (stationary, Earth-rate-consistent readings) with set_pva relabelling the same physical attitude under another heading; set_pva with the labels of the state in another order.'
+        ' Round 5: predict with an increment that is zero in every column (stamped with the current time); supplied states with angles a turn off (heading 0..360); with_altitude as numpy.bool_.')
 ASSUMPTIONS = ['Euler-angle extraction gives the same bits for an element whatever the batch length (probed at start-up; '
                'if not, the run is inconclusive)', 'in 2-D histories the states given to set_pva have VD = 0 (non-zero VD is C13)']
 REQUIRED_OBS = ['predict_with_zero_increment', 'supplied_states_with_unwrapped_angles', 'set_pva_with_permuted_labels', 'set_pva_angles_kept', 'tables_with_permuted_columns', 'model_comparisons', 'predict_calls', 'set_pva_calls', 'growth_events', 'empty_chunks', 'kernel_calls',
